@@ -148,7 +148,11 @@ def pair_order(case):
     (they read out of bounds on this tree and may kill the child)."""
     pairs = [(a, b) for a in range(case.n) for b in range(case.n)]
     if case.kind == "dragonfly":
-        pairs.sort(key=lambda pr: 1 if "group-router-outside-chassis-0" in case.shape.features(*pr) else 0)
+        pairs.sort(key=lambda pr: 1 if risky(case, *pr) else 0)
+        nr = sum(1 for pr in pairs if risky(case, *pr))
+        cap = 3 if case.flavour == "asan" else 40      # a sanitizer report cannot be survived: every one costs a new process
+        if nr > cap:
+            pairs = pairs[:len(pairs) - nr + cap]
     return pairs
 
 
